@@ -77,6 +77,8 @@ static inline uint64_t verif_dbits(double d)
 
 extern void verif_yield(unsigned point);
 extern void verif_trace(unsigned kind, uint64_t a, uint64_t b, uint64_t c);
+/// Number of messages a worker thread processes between two steps of the GVT algorithm (dflt: the built-in constant)
+extern unsigned verif_batch(unsigned dflt);
 
 #define VERIF_YIELD(p) verif_yield(p)
 #define VERIF_TRACE(k, a, b, c) verif_trace((k), (uint64_t)(a), (uint64_t)(b), (uint64_t)(c))
